@@ -21,7 +21,7 @@ class Recorder:
         return out
 
 
-def one_case(obs_list, st, ns, nc, burn, steps, init=None, overwrite=False, system=False):
+def one_case(obs_list, st, ns, nc, burn, steps, init=None, overwrite=False, system=False, vtol=1e-9):
     from qucumber.observables import System
     rec = Recorder(st)
     kw = dict(num_samples=ns, num_chains=nc, burn_in=burn, steps=steps)
@@ -65,9 +65,9 @@ def one_case(obs_list, st, ns, nc, burn, steps, init=None, overwrite=False, syst
             fails.append("%s: mean %r != one-pass %r" % (o.name, r["mean"], vals.mean()))
         if n >= 2:
             v = vals.var(ddof=1)
-            if not (abs(r["variance"] - v) <= 1e-9 * (1 + abs(v))):
+            if not (abs(r["variance"] - v) <= vtol * (1 + abs(v))):
                 fails.append("%s: variance %r != one-pass unbiased %r" % (o.name, r["variance"], v))
-            if not (abs(r["std_error"] - np.sqrt(v / n)) <= 1e-9 * (1 + np.sqrt(v / n))):
+            if not (abs(r["std_error"] - np.sqrt(v / n)) <= vtol * (1 + np.sqrt(v / n))):
                 fails.append("%s: std_error wrong" % o.name)
     return fails
 
@@ -92,6 +92,14 @@ def native_check(seed=0, quick=True):
                     n += 1
                     if f:
                         fails.append(({"kind": kind, "num_samples": ns, "num_chains": nc, "burn_in": burn, "steps": steps, "system": system}, f[:2]))
+        # an observable whose mean is many orders of magnitude above its spread, merged over many chunks: the streaming
+        # variance must not lose the spread to cancellation
+        for system in (False, True):
+            obs = [SigmaZ() + 1e7, SigmaX() - 3e6] if system else [SigmaZ() + 1e7]
+            f = one_case(obs, st, 1000, 37, 3, 1, system=system, vtol=1e-6)
+            n += 1
+            if f:
+                fails.append(({"kind": kind, "observable": "mean 1e7, spread < 1", "num_samples": 1000, "num_chains": 37, "system": system}, f[:2]))
         for ow in (False, True):
             init = torch.tensor(rng.integers(0, 2, size=(4, 3)), dtype=torch.double)
             f = one_case([SigmaZ()], st, 10, 7, 2, 1, init=init, overwrite=ow)
